@@ -166,33 +166,27 @@ fn case_of(text: &str, style: ScalarStyle, tag: Option<&Tag>) -> J {
 }
 
 /// Check the untagged plain reading of `text`. Returns the CN of the reading.
-pub fn check_untagged(text: &str, stats: &mut Stats) -> Option<CN> {
-    let r = catch(|| cn_scalar(&Scalar::parse_from_cow(text.into())));
-    let Ok(got) = r else {
-        viol(stats, "C08/panic/parse_from_cow".into(), format!("parse_from_cow({text:?}) panicked"), case_of(text, ScalarStyle::Plain, None));
-        return None;
-    };
+/// What is wrong with `got` as the untagged plain reading of `text` (class, message); empty = nothing.
+pub fn untagged_problems(text: &str, got: &CN) -> Vec<(String, String)> {
     let lit = classify(text);
-    let key = shape(text);
-    let mut bad = |class: &str, msg: String, stats: &mut Stats| {
-        viol(stats, format!("C08/{class}/{key}"), msg, case_of(text, ScalarStyle::Plain, None));
-    };
+    let mut out: Vec<(String, String)> = vec![];
+    let mut bad = |class: &str, msg: String| out.push((class.to_string(), msg));
     // soundness
-    match &got {
+    match got {
         CN::Null => {
             if !matches!(lit, Lit::Null | Lit::OptionalNull) {
-                bad("unsound-null", format!("{text:?} loads as null but is not a core-schema null"), stats);
+                bad("unsound-null", format!("{text:?} loads as null but is not a core-schema null"));
             }
         }
         CN::Bool(b) => {
             if !matches!(&lit, Lit::Bool(x) | Lit::OptionalBool(x) if x == b) {
-                bad("unsound-bool", format!("{text:?} loads as {b} but is not that core-schema boolean"), stats);
+                bad("unsound-bool", format!("{text:?} loads as {b} but is not that core-schema boolean"));
             }
         }
         CN::Int(v) => match &lit {
             Lit::Int(Some(x)) if x == v => {}
-            Lit::Int(x) => bad("wrong-int-value", format!("{text:?} loads as integer {v}, the literal denotes {x:?}"), stats),
-            _ => bad("unsound-int", format!("{text:?} loads as integer {v} but is not a core-schema integer"), stats),
+            Lit::Int(x) => bad("wrong-int-value", format!("{text:?} loads as integer {v}, the literal denotes {x:?}")),
+            _ => bad("unsound-int", format!("{text:?} loads as integer {v} but is not a core-schema integer")),
         },
         CN::Float(v) => match &lit {
             Lit::PosInf if *v == f64::INFINITY => {}
@@ -201,32 +195,94 @@ pub fn check_untagged(text: &str, stats: &mut Stats) -> Option<CN> {
             Lit::Float | Lit::Int(None) => {
                 let want = float_value(text);
                 if !(want == *v || (want.is_nan() && v.is_nan())) || want.is_nan() {
-                    bad("wrong-float-value", format!("{text:?} loads as float {v:?}, the literal denotes {want:?}"), stats);
+                    bad("wrong-float-value", format!("{text:?} loads as float {v:?}, the literal denotes {want:?}"));
                 }
             }
-            _ => bad("unsound-float", format!("{text:?} loads as float {v:?} but is not a core-schema float"), stats),
+            _ => bad("unsound-float", format!("{text:?} loads as float {v:?} but is not a core-schema float")),
         },
         CN::Str(s) => {
             if s != text {
-                bad("string-content-changed", format!("{text:?} loads as the different string {s:?}"), stats);
+                bad("string-content-changed", format!("{text:?} loads as the different string {s:?}"));
             }
             // completeness for the set the statement names
             match &lit {
-                Lit::Null => bad("missed-null", format!("{text:?} is a null literal but loads as a string"), stats),
-                Lit::Bool(_) => bad("missed-bool", format!("{text:?} is a boolean literal but loads as a string"), stats),
-                Lit::Int(Some(_)) => bad("missed-int", format!("{text:?} is an integer literal within 64 bits but loads as a string"), stats),
-                Lit::Float => bad("missed-float", format!("{text:?} is a float literal but loads as a string"), stats),
-                Lit::PosInf | Lit::NegInf | Lit::Nan => bad("missed-special-float", format!("{text:?} is a .inf/.nan spelling but loads as a string"), stats),
+                Lit::Null => bad("missed-null", format!("{text:?} is a null literal but loads as a string")),
+                Lit::Bool(_) => bad("missed-bool", format!("{text:?} is a boolean literal but loads as a string")),
+                Lit::Int(Some(_)) => bad("missed-int", format!("{text:?} is an integer literal within 64 bits but loads as a string")),
+                Lit::Float => bad("missed-float", format!("{text:?} is a float literal but loads as a string")),
+                Lit::PosInf | Lit::NegInf | Lit::Nan => bad("missed-special-float", format!("{text:?} is a .inf/.nan spelling but loads as a string")),
                 _ => {}
             }
         }
-        other => bad("unexpected-kind", format!("{text:?} loads as {}", other.show()), stats),
+        other => bad("unexpected-kind", format!("{text:?} loads as {}", other.show())),
+    }
+    out
+}
+
+pub fn check_untagged(text: &str, stats: &mut Stats) -> Option<CN> {
+    let r = catch(|| cn_scalar(&Scalar::parse_from_cow(text.into())));
+    let Ok(got) = r else {
+        viol(stats, "C08/panic/parse_from_cow".into(), format!("parse_from_cow({text:?}) panicked"), case_of(text, ScalarStyle::Plain, None));
+        return None;
+    };
+    let key = shape(text);
+    for (class, msg) in untagged_problems(text, &got) {
+        viol(stats, format!("C08/{class}/{key}"), msg, case_of(text, ScalarStyle::Plain, None));
     }
     Some(got)
 }
 
 fn core_tag(suffix: &str) -> Tag {
     Tag { handle: "tag:yaml.org,2002:".into(), suffix: suffix.into() }
+}
+
+/// What is wrong with `got` (None = BadValue) as the reading of the plain scalar `text` under the core
+/// tag `!!suffix`, given the untagged reading of the same text.
+pub fn tagged_problems(text: &str, suffix: &str, untagged: &CN, got: &Option<CN>) -> Vec<(String, String)> {
+    let lit = classify(text);
+    let mut out: Vec<(String, String)> = vec![];
+    let mut bad = |class: &str, msg: String| out.push((class.to_string(), msg));
+    match (got, suffix) {
+        (None, _) => {
+            // BadValue is allowed unless the statement guarantees acceptance
+            let must = match suffix {
+                "int" => matches!(lit, Lit::Int(Some(_))) && !text.starts_with("0x") && !text.starts_with("0o"),
+                "float" => matches!(lit, Lit::Float | Lit::Int(_)) && !text.starts_with("0x") && !text.starts_with("0o"),
+                "bool" => matches!(lit, Lit::Bool(_)),
+                _ => matches!(text, "null" | "~"),
+            };
+            if must {
+                bad("refused-own-literal", format!("!!{suffix} {text:?} is refused (BadValue)"));
+            }
+        }
+        (Some(CN::Int(v)), "int") => {
+            if *untagged != CN::Int(*v) {
+                bad("disagrees-with-untagged", format!("!!int {text:?} gives {v}, the untagged reading is {}", untagged.show()));
+            }
+        }
+        (Some(CN::Float(v)), "float") => {
+            let ok = match untagged {
+                CN::Float(u) => (u == v) || (u.is_nan() && v.is_nan()),
+                CN::Int(i) => (*i as f64) == *v,
+                _ => false,
+            };
+            if !ok {
+                bad("disagrees-with-untagged", format!("!!float {text:?} gives {v:?}, the untagged reading is {}", untagged.show()));
+            }
+        }
+        (Some(CN::Bool(b)), "bool") => {
+            if *untagged != CN::Bool(*b) {
+                bad("disagrees-with-untagged", format!("!!bool {text:?} gives {b}, the untagged reading is {}", untagged.show()));
+            }
+        }
+        (Some(CN::Null), "null") => {
+            if *untagged != CN::Null {
+                bad("disagrees-with-untagged", format!("!!null {text:?} gives null, the untagged reading is {}", untagged.show()));
+            }
+        }
+        (Some(other), _) => bad("other-type", format!("!!{suffix} {text:?} gives {} (another type)", other.show())),
+    }
+    out
 }
 
 pub fn check_tagged_and_styles(text: &str, untagged: &CN, stats: &mut Stats) {
@@ -261,45 +317,8 @@ pub fn check_tagged_and_styles(text: &str, untagged: &CN, stats: &mut Stats) {
         let mut bad = |class: &str, msg: String, stats: &mut Stats| {
             viol(stats, format!("C08/tag-{suffix}/{class}/{key}"), msg, case_of(text, ScalarStyle::Plain, Some(&tag)));
         };
-        match (&got, suffix) {
-            (None, _) => {
-                // BadValue is allowed unless the statement guarantees acceptance
-                let must = match suffix {
-                    "int" => matches!(lit, Lit::Int(Some(_))) && !text.starts_with("0x") && !text.starts_with("0o"),
-                    "float" => matches!(lit, Lit::Float | Lit::Int(_)) && !text.starts_with("0x") && !text.starts_with("0o"),
-                    "bool" => matches!(lit, Lit::Bool(_)),
-                    _ => matches!(text, "null" | "~"),
-                };
-                if must {
-                    bad("refused-own-literal", format!("!!{suffix} {text:?} is refused (BadValue)"), stats);
-                }
-            }
-            (Some(CN::Int(v)), "int") => {
-                if *untagged != CN::Int(*v) {
-                    bad("disagrees-with-untagged", format!("!!int {text:?} gives {v}, the untagged reading is {}", untagged.show()), stats);
-                }
-            }
-            (Some(CN::Float(v)), "float") => {
-                let ok = match untagged {
-                    CN::Float(u) => (u == v) || (u.is_nan() && v.is_nan()),
-                    CN::Int(i) => (*i as f64) == *v,
-                    _ => false,
-                };
-                if !ok {
-                    bad("disagrees-with-untagged", format!("!!float {text:?} gives {v:?}, the untagged reading is {}", untagged.show()), stats);
-                }
-            }
-            (Some(CN::Bool(b)), "bool") => {
-                if *untagged != CN::Bool(*b) {
-                    bad("disagrees-with-untagged", format!("!!bool {text:?} gives {b}, the untagged reading is {}", untagged.show()), stats);
-                }
-            }
-            (Some(CN::Null), "null") => {
-                if *untagged != CN::Null {
-                    bad("disagrees-with-untagged", format!("!!null {text:?} gives null, the untagged reading is {}", untagged.show()), stats);
-                }
-            }
-            (Some(other), _) => bad("other-type", format!("!!{suffix} {text:?} gives {} (another type)", other.show()), stats),
+        for (class, msg) in tagged_problems(text, suffix, untagged, &got) {
+            bad(&class, msg, stats);
         }
         // the same tag written verbatim (`!<tag:yaml.org,2002:int>`) or through a %TAG prefix that cuts
         // the name elsewhere is the same tag: handle and suffix are only its two halves
